@@ -30,6 +30,9 @@ class Shadow:
         self.hist: list = []
         self.saw_partial = False
         self.saw_restore_other_dirty = False
+        # reuse: the caller keeps one NumPy buffer per input and refills it in place before handing it over again
+        self.reuse = False
+        self.buffers: dict[int, np.ndarray] = {}
         prog.reset_inputs()
         self.snap = dict(prog.counters)
         self.caching = [n.sid for n in prog.nodes if n.caching]
@@ -130,10 +133,19 @@ class Shadow:
         before = set(self.dirty)
         op = f"assign {self.nm(sid)} via {how} (auto_update={self.auto})"
         self.hist.append(["assign", n.obj.name, how, v.tolist(), self.auto])
+        given = jnp.asarray(v)
+        if self.reuse:
+            buf = self.buffers.get(sid)
+            if buf is None or buf.shape != np.shape(v) or buf.dtype != np.asarray(given).dtype:
+                buf = self.buffers[sid] = np.empty(np.shape(v), np.asarray(given).dtype)
+            else:
+                self.res.ev("assigned_same_buffer_object_refilled")
+            buf[...] = np.asarray(given)
+            given = buf
         if how == "var":
-            p.var_objs[n.unit].value = jnp.asarray(v)
+            p.var_objs[n.unit].value = given
         else:
-            n.obj.value = jnp.asarray(v)
+            n.obj.value = given
         p.cur_inputs[sid] = v
         newly = {d for d in p.desc_of(sid) if p.nodes[d].caching}
         self.dirty |= newly
@@ -258,6 +270,8 @@ class Shadow:
 
     def save(self, slot):
         self.hist.append(["save", slot])
+        # a saved state refers to the current value objects: the caller does not write into those buffers again
+        self.buffers = {}
         st = self.model.state
         self.slots[slot] = (st, dict(self.p.cur_inputs), set(self.dirty))
         self.check_counts("state (save)", set(), zero=True)
